@@ -135,6 +135,40 @@ def run(ctx):
                     ctx.violation('quantize(phase %% 2pi) gives level %d outside [0, 2^%d) for phase %r (%s)' % (lvl, bits, q, dt),
                                   {'phase': q, 'dtype': str(dt), 'bits': bits},
                                   {'what': 'quantize_level_range', 'fn': 'quantize', 'tiny_negative_phase': tiny_neg})
+    # ---- option combinations of the SLM pattern: what is RETURNED (pattern, levels) does not depend on whether the pattern is also written to a file,
+    # for every bit depth (SLMs with 1 .. 16 bits), with and without an illumination profile
+    import tempfile, shutil, os
+    tmpd = tempfile.mkdtemp(prefix='odakverif_c09_')
+    try:
+        g = np.random.RandomState(ctx.seed + 9)
+        holo = g.rand(6, 7) * np.exp(1j * (g.rand(6, 7) * 40 - 20))
+        illum = 0.5 + g.rand(6, 7)
+        for bits_ in (1, 2, 4, 6, 8, 10, 12, 16):
+            for rng_ in (2 * math.pi, 3.0 * math.pi, 4.1):
+                for ill in (None, illum):
+                    ctx.case(('slm_options', bits_, round(rng_, 3), ill is not None), True)
+                    ctx.count('slm_pattern/with and without filename/bits=%d' % bits_)
+                    keep = holo.copy()
+                    p0, d0 = NW.produce_phase_only_slm_pattern(holo, rng_, bits=bits_, illumination=ill)
+                    try:
+                        p1, d1 = NW.produce_phase_only_slm_pattern(holo, rng_, filename=os.path.join(tmpd, 'slm_%d.png' % bits_), bits=bits_, illumination=ill)
+                    except (Exception, SystemExit) as e:
+                        ctx.count('slm_pattern/filename rejected: %s' % type(e).__name__)
+                        continue
+                    rec = {'fn': 'produce_phase_only_slm_pattern', 'bits': bits_, 'slm_range': rng_, 'illumination': ill is not None, 'filename': True}
+                    if not np.array_equal(holo, keep):
+                        ctx.violation('produce_phase_only_slm_pattern changed the hologram it was given (bits=%d, with a filename)' % bits_, rec,
+                                      {'what': 'slm_options', 'fn': 'produce_phase_only_slm_pattern'})
+                    if not np.array_equal(d0, d1) or not np.allclose(p0, p1, atol=1e-12):
+                        ctx.violation('produce_phase_only_slm_pattern(bits=%d, slm_range=%.4g): with a filename the returned levels span [%d, %d] and the pattern differs by %.3g '
+                                      'from the call without a filename (levels [%d, %d])' % (bits_, rng_, int(np.min(d1)), int(np.max(d1)), float(np.max(np.abs(p0 - p1))),
+                                                                                             int(np.min(d0)), int(np.max(d0))), rec,
+                                      {'what': 'slm_options', 'fn': 'produce_phase_only_slm_pattern', 'bits': bits_})
+                    if not (np.min(d1) >= 0 and np.max(d1) < 2 ** bits_):
+                        ctx.violation('produce_phase_only_slm_pattern(bits=%d) with a filename returns levels outside [0, 2^bits)' % bits_, rec,
+                                      {'what': 'slm_level_range', 'fn': 'produce_phase_only_slm_pattern'})
+    finally:
+        shutil.rmtree(tmpd, ignore_errors=True)
     from .genquantisers import check_generated_quantisers
     dtype_combinations(ctx)
     check_generated_quantisers(ctx)        # the definitions regenerated from the source (Generated/Quantisers.lean) vs the real code
